@@ -616,6 +616,35 @@ def _canaries(self):
     ]
 
 
+def _bounded_stand_in(self, tier, undecided):
+    """supports_batching / compare outside the interpreted subset: exhaustive native check on the date grid"""
+    if not any("batching.py" in u or "versioning.py" in u for u in undecided):
+        return []
+    from chuk_mcp.protocol.features.batching import supports_batching
+    from chuk_mcp.protocol.types.versioning import ProtocolVersion
+    years = range(1990, 2200) if tier == "thorough" else range(2023, 2028)
+    n = 0
+    for y in years:
+        for mth in range(100):
+            for d in range(100):
+                v = f"{y:04d}-{mth:02d}-{d:02d}"
+                n += 1
+                want = v < CUTOFF
+                try:
+                    got = supports_batching(v)
+                except Exception as ex:
+                    return [dict(name="supports_batching", reproduced=True, input=v, observed=repr(ex), required=want)]
+                if got != want:
+                    return [dict(name="supports_batching", reproduced=True, input=v, observed=got, required=want,
+                                 bound=f"all dddd-dd-dd strings with year in {years.start}..{years.stop - 1}")]
+                if (ProtocolVersion.compare(v, CUTOFF) < 0) != want:
+                    return [dict(name="compare_agrees_with_decision", reproduced=True, input=v,
+                                 observed=ProtocolVersion.compare(v, CUTOFF), required="negative iff older")]
+    return [dict(name="supports_batching", reproduced=False, cases=n,
+                 bound=f"all dddd-dd-dd strings with year in {years.start}..{years.stop - 1} (bounded, not a proof)")]
+
+
+C13.bounded_stand_in = _bounded_stand_in
 C13.contracts = _contracts
 C13.install = _install
 C13.modular = _modular
